@@ -454,8 +454,14 @@ func (p *Prog) addrLeaks(v ssa.Value, depth int) bool {
 			}
 		case *ssa.Store:
 			if r.Val == v {
+				// storing the address into the function's own result slot does not
+				// publish it before the function returns
+				if a, ok := r.Addr.(*ssa.Alloc); ok && !a.Heap && a.Comment == "" && onlyLoadedForReturn(a) {
+					continue
+				}
 				return true
 			}
+		case *ssa.Return:
 		case *ssa.FieldAddr:
 			if p.addrLeaks(r, depth+1) {
 				return true
@@ -651,6 +657,7 @@ func (u *Unit) bindParams(env *Env, names []string, tys []types.Type, args []Ter
 		ev := EVal{T: a, Ty: ty}
 		if i < len(names) && names[i] != "" && names[i] != "_" {
 			env.vars[names[i]] = ev
+			env.vars[names[i]+"$entry"] = ev
 		}
 		env.vars[fmt.Sprintf("arg%d", i)] = ev
 	}
@@ -1195,6 +1202,14 @@ func (u *Unit) callAssertions(st *State, fr *Frame, site ssa.Instruction, desigs
 		env.st = st
 		env.fr = fr
 		env.key = fmt.Sprintf("%s.ac%d", u.Name, i)
+		if fr == top {
+			for n, v := range env.vars {
+				_ = v
+				if !strings.HasSuffix(n, "$entry") && localAlloc(fr.Fn, n) != nil {
+					delete(env.vars, n)
+				}
+			}
+		}
 		for j, a := range args {
 			env.vars[fmt.Sprintf("arg%d", j)] = EVal{T: a, Ty: argTypeAt(site, j)}
 		}
@@ -1551,4 +1566,30 @@ func splitElemPath(addr, want Term) (idx Term, rebuild func(Term) Term, ok bool)
 		return t
 	}
 	return idx, rebuild, true
+}
+
+// onlyLoadedForReturn: every load of the local is used by a Return only.
+func onlyLoadedForReturn(a *ssa.Alloc) bool {
+	if a.Referrers() == nil {
+		return false
+	}
+	for _, r := range *a.Referrers() {
+		switch r := r.(type) {
+		case *ssa.Store, *ssa.DebugRef:
+		case *ssa.UnOp:
+			if r.Referrers() == nil {
+				return false
+			}
+			for _, rr := range *r.Referrers() {
+				if _, ok := rr.(*ssa.Return); !ok {
+					if _, isDbg := rr.(*ssa.DebugRef); !isDbg {
+						return false
+					}
+				}
+			}
+		default:
+			return false
+		}
+	}
+	return true
 }
